@@ -66,7 +66,7 @@ func vc19Shapes(maxCells int64) []vc19shape {
 				}
 				// cells = (bucketCount+1)*sbc/2
 				buckets := int64(1)
-				for s := sbc << um; s < max; s <<= 1 {
+				for s := sbc << um; s <= max && s > 0 && buckets < 64; s <<= 1 {
 					buckets++
 				}
 				if maxCells > 0 && (buckets+1)*(sbc/2) > maxCells {
@@ -171,8 +171,8 @@ func VC19_Walk() {
 	}
 	shapes := []walkShape{{vc19shape{1, 30, 1}, 1}, {vc19shape{1, 32, 1}, 2}, {vc19shape{1, 100, 1}, 1}, {vc19shape{2, 64, 1}, 2}, {vc19shape{3, 200, 1}, 1}}
 	if vf.Thorough() {
-		shapes = []walkShape{{vc19shape{1, 30, 1}, 2}, {vc19shape{1, 32, 1}, 3}, {vc19shape{1, 100, 1}, 2}, {vc19shape{2, 64, 1}, 2}, {vc19shape{3, 200, 1}, 2},
-			{vc19shape{1, 1000, 1}, 1}, {vc19shape{10, 2000, 1}, 1}, {vc19shape{1, 255, 2}, 1}}
+		shapes = []walkShape{{vc19shape{1, 30, 1}, 2}, {vc19shape{1, 32, 1}, 2}, {vc19shape{1, 100, 1}, 2}, {vc19shape{2, 64, 1}, 2}, {vc19shape{3, 200, 1}, 2},
+			{vc19shape{1, 1000, 1}, 1}, {vc19shape{10, 2000, 1}, 1}, {vc19shape{1, 255, 2}, 1}, {vc19shape{1, 31, 1}, 3}}
 	}
 	ws := shapes[vf.Choice("shape", len(shapes))]
 	s := ws.vc19shape
@@ -183,7 +183,7 @@ func VC19_Walk() {
 	for i := 0; i < k; i++ {
 		v := vc19val(s, "v")
 		m := 1
-		if i == 0 {
+		if i == 0 && k < 3 {
 			m = vf.Range("mult", 1, 2)
 		}
 		if err := h.RecordValues(v, int64(m)); err != nil {
